@@ -39,7 +39,8 @@ LEAN_MODULE = "ElfioVerif.Props.C18"
 THEOREMS = ["ElfioVerif.C18." + t for t in (
     "reloc_get_total", "reloc_get_resolved_total", "sym_by_name_total", "sym_by_value_total",
     "array_get_total", "versym_get_total", "verneed_get_total", "verdef_get_total", "arrange_total_any",
-    "sysv_walk_total", "gnu_walk_total", "swap_symbols_total", "queries_total",
+    "sysv_walk_total", "gnu_walk_total", "swap_symbols_total", "runQuery_total", "queries_total",
+    "secGetData_settled", "sec_of_loaded", "small_of_loaded",
     "reloc_null_symtab_witness", "sysv_nbucket_zero_witness", "sysv_cycle_witness", "gnu_bloom_zero_witness",
     "gnu_nbuckets_zero_witness", "gnu_walk_oob_witness", "arrange_null_data_witness", "array_null_data_witness",
     "versym_null_data_witness", "reloc_null_data_witness", "verneed_oob_witness", "verdef_oob_witness",
